@@ -223,3 +223,96 @@ func fieldTypeTest(cond ssa.Value) (base ssa.Value, asserted types.Type, blk *ss
 	}
 	return nil, nil, nil, false
 }
+
+// typeSetPredicate recognises a helper `func(…, x interface{}) bool` whose body only tests the
+// dynamic type of x and returns true exactly for a fixed set of types.
+func typeSetPredicate(fn *ssa.Function) (param *ssa.Parameter, set []types.Type, ok bool) {
+	if fn == nil || fn.Blocks == nil || fn.Signature.Results().Len() != 1 {
+		return nil, nil, false
+	}
+	if b, isB := fn.Signature.Results().At(0).Type().Underlying().(*types.Basic); !isB || b.Kind() != types.Bool {
+		return nil, nil, false
+	}
+	for _, b := range fn.Blocks {
+		for _, ins := range b.Instrs {
+			switch ins.(type) {
+			case *ssa.TypeAssert, *ssa.Extract, *ssa.If, *ssa.Return, *ssa.Jump, *ssa.Phi, *ssa.DebugRef:
+			default:
+				return nil, nil, false
+			}
+		}
+	}
+	paths, complete := enumPaths(fn, 64)
+	if !complete || len(paths) == 0 {
+		return nil, nil, false
+	}
+	for _, fp := range paths {
+		ret, isRet := fp.exit.(*ssa.Return)
+		if !isRet {
+			return nil, nil, false
+		}
+		rv := fp.resolve(ret.Results[0])
+		cst, isC := rv.(*ssa.Const)
+		if !isC || cst.Value == nil {
+			return nil, nil, false
+		}
+		val := cst.Value.String() == "true"
+		var taken types.Type
+		for _, ec := range fp.conds {
+			ex, isE := ec.cond.(*ssa.Extract)
+			if !isE || ex.Index != 1 {
+				return nil, nil, false
+			}
+			ta, isTA := ex.Tuple.(*ssa.TypeAssert)
+			if !isTA {
+				return nil, nil, false
+			}
+			prm, isP := ta.X.(*ssa.Parameter)
+			if !isP || (param != nil && prm != param) {
+				return nil, nil, false
+			}
+			param = prm
+			if ec.taken {
+				taken = ta.AssertedType
+			}
+		}
+		if val != (taken != nil) {
+			return nil, nil, false // true must mean "one of the tested types", false "none"
+		}
+		if taken != nil {
+			dup := false
+			for _, t := range set {
+				if types.Identical(t, taken) {
+					dup = true
+				}
+			}
+			if !dup {
+				set = append(set, taken)
+			}
+		}
+	}
+	return param, set, param != nil && len(set) > 0
+}
+
+// typeTestsOf lists what a condition says about the dynamic type of a value: for
+// `_, ok := x.(T)` one entry; for a call of a type-set predicate one entry per type of the set.
+// holds reports whether the condition being true means "x has (one of) the type(s)".
+func typeTestsOf(cond ssa.Value) (x ssa.Value, ts []types.Type, ok bool) {
+	if ex, isE := cond.(*ssa.Extract); isE && ex.Index == 1 {
+		if ta, isTA := ex.Tuple.(*ssa.TypeAssert); isTA && ta.CommaOk {
+			return ta.X, []types.Type{ta.AssertedType}, true
+		}
+	}
+	if call, isC := cond.(*ssa.Call); isC {
+		if sc := call.Call.StaticCallee(); sc != nil {
+			if prm, set, isP := typeSetPredicate(sc); isP {
+				for i, pp := range sc.Params {
+					if pp == prm && i < len(call.Call.Args) {
+						return call.Call.Args[i], set, true
+					}
+				}
+			}
+		}
+	}
+	return nil, nil, false
+}
